@@ -233,6 +233,7 @@ def run(ctx):
         cap = 19 if len(t) == 1 else ctx.pick(7, 9)
         pool = full if len(full) <= cap else G._thin(rng, full, cap)
         judge_pool(ctx, t, pool)
+        ctx.remember(judge_pool, ctx, t, pool, limit=12)
         judge_collections(ctx, rng, t, pool if len(pool) <= 8 else G._thin(rng, pool, 8))
         if len(ctx.samples) < 4 and T.depth(t) == 2:
             ctx.samples.append({'type': T.show(t), 'pool': [P.render(x, t, 'readable') for x in pool[:4]]})
@@ -253,6 +254,7 @@ def run(ctx):
         if res.error is not None or it.stack.items[0].value != 0:
             ctx.violation('C03|COMPARE-sign|signature|same-bytes-different-spelling', 'edsig vs sig spelling of the same 64 bytes: %r' % (res.error or it.stack.items[0].value,),
                           {'type': {'prim': 'signature'}, 'a': {'string': a}, 'b': {'string': b}})
+    ctx.run_again()
     ctx.require('compare_runs', 500)
     ctx.require('triples_checked', 500)
     ctx.require('set_literals', 10)
